@@ -16,13 +16,58 @@ import (
 const (
 	SigF18      = "xref-stream-size-exceeds-8192+32*rawLen"
 	SigDeferred = "deferred-stream-put-close-reports-duplicate"
-	SigPreFilt  = "openstream-dict-filter-plus-filters-order"
+	SigPreFilt  = "openstream-declared-chain-plus-filters"
 	SigHuge     = "writecompressed-more-than-10000-objects-unreadable"
 )
 
 type Query struct {
 	Ref  pdf.Reference
-	Mode byte // 'v' value, 'k' kind only
+	Mode byte // 'v' value, 'k' kind only, 'c' stream on a declared chain: the data with only the first K filters undone
+	K    int
+}
+
+// ChainObs renders /Filter and /DecodeParms of a stream dictionary as read.
+func ChainObs(d pdf.Dict) string {
+	return "F " + WireString(Norm(d["Filter"]), false) + " P " + WireString(Norm(d["DecodeParms"]), false)
+}
+
+// DecodeFirst undoes the cipher and the first k filters of the stream's chain (k < 0: all).
+func DecodeFirst(r pdf.Getter, stm *pdf.Stream, k int) ([]byte, error) {
+	s2 := *stm
+	if k >= 0 {
+		d := pdf.Dict{}
+		for key, v := range stm.Dict {
+			d[key] = v
+		}
+		var names, parms pdf.Array
+		switch f := stm.Dict["Filter"].(type) {
+		case pdf.Name:
+			names = pdf.Array{f}
+			parms = pdf.Array{stm.Dict["DecodeParms"]}
+		case pdf.Array:
+			names = f
+			parms, _ = stm.Dict["DecodeParms"].(pdf.Array)
+		}
+		for len(parms) < len(names) {
+			parms = append(parms, nil)
+		}
+		if k > len(names) {
+			return nil, fmt.Errorf("the chain has %d filters, %d expected in front", len(names), k)
+		}
+		delete(d, "Filter")
+		delete(d, "DecodeParms")
+		if k > 0 {
+			d["Filter"] = append(pdf.Array{}, names[:k]...)
+			d["DecodeParms"] = append(pdf.Array{}, parms[:k]...)
+		}
+		s2.Dict = d
+	}
+	rd, err := pdf.DecodeStream(r, nil, &s2)
+	if err != nil {
+		return nil, err
+	}
+	defer rd.Close()
+	return io.ReadAll(rd)
 }
 
 type Failure struct{ Sig, What string }
@@ -231,15 +276,18 @@ func Check(res *Result) *ReadBack {
 	for _, n := range nums {
 		ref := pdf.NewReference(n, gens[n])
 		mode := byte('k')
-		if w, ok := want[ref]; ok && !w.Unreadable {
+		k := 0
+		if w, ok := want[ref]; ok && w.Declared {
+			mode, k = 'c', w.NArgs
+		} else if ok {
 			mode = 'v'
 		} else if _, user := gens[n]; user && !ok {
 			mode = 'v' // allocated, never written
 		}
-		rb.Queries = append(rb.Queries, Query{ref, mode})
+		rb.Queries = append(rb.Queries, Query{ref, mode, k})
 		if _, ok := want[ref]; ok && probes < 3 {
 			probes++
-			rb.Queries = append(rb.Queries, Query{pdf.NewReference(n, gens[n]+1), 'v'})
+			rb.Queries = append(rb.Queries, Query{pdf.NewReference(n, gens[n]+1), 'v', 0})
 		}
 	}
 
@@ -248,7 +296,7 @@ func Check(res *Result) *ReadBack {
 		w := want[q.Ref]
 		if err != nil {
 			rb.Obs[q.Ref] = "error"
-			if w != nil && w.Unreadable {
+			if w != nil && w.Declared {
 				fail(SigPreFilt, "%v: %v", q.Ref, err)
 			} else if res.HugeBatch && strings.Contains(err.Error(), "no valid /N") {
 				fail(SigHuge, "WriteCompressed accepted more than 10000 objects; the Reader refuses the object stream: Get(%v): %v", q.Ref, err)
@@ -273,13 +321,21 @@ func Check(res *Result) *ReadBack {
 				rb.RawStreams = append(rb.RawStreams, [2][]byte{raw, decoded})
 			}
 		}
+		var partial []byte
+		var partErr error
 		if q.Mode == 'k' {
 			rb.Obs[q.Ref] = kindOf(got)
 		} else if isStream {
-			if decErr != nil {
-				rb.Obs[q.Ref] = "T " + WireString(Norm(stripStreamKeys(stm.Dict)), false) + " !" 
+			shown, shownErr := decoded, decErr
+			if q.Mode == 'c' {
+				partial, partErr = DecodeFirst(r, stm, q.K)
+				shown, shownErr = partial, partErr
+			}
+			head := "T " + WireString(Norm(stripStreamKeys(stm.Dict)), false) + " " + ChainObs(stm.Dict)
+			if shownErr != nil {
+				rb.Obs[q.Ref] = head + " !"
 			} else {
-				rb.Obs[q.Ref] = "T " + WireString(Norm(stripStreamKeys(stm.Dict)), false) + " " + hx(decoded)
+				rb.Obs[q.Ref] = head + " " + hx(shown)
 			}
 		} else if got == nil {
 			rb.Obs[q.Ref] = "null"
@@ -292,9 +348,19 @@ func Check(res *Result) *ReadBack {
 			if _, user := gens[q.Ref.Number()]; (user || q.Mode == 'v') && got != nil {
 				fail("unwritten-not-null", "%v was never written (under this generation) and reads %s", q.Ref, pdf.AsString(got))
 			}
-		case w.Unreadable:
-			if decErr != nil || !bytes.Equal(decoded, w.Data) {
-				fail(SigPreFilt, "%v: dictionary had /Filter, filters were given: decoded data differs (err=%v)", q.Ref, decErr)
+		case w.Declared:
+			// the caller's data was encoded with the chain its dictionary declares; OpenStream
+			// put w.NArgs more filters on top: all of it undone gives the data, the filters of
+			// OpenStream alone undone gives what was handed to Write
+			if !isStream {
+				fail(SigPreFilt, "%v: stream reads as %T", q.Ref, got)
+			} else if decErr != nil || !bytes.Equal(decoded, w.Data) {
+				fail(SigPreFilt, "%v: the dictionary declares a chain (%s as read back), %d filters were passed to OpenStream: the decoded data differs from the %d bytes the caller encoded (err=%v, %d bytes, first difference at %d)",
+					q.Ref, ChainObs(stm.Dict), w.NArgs, len(w.Data), decErr, len(decoded), firstDiff(decoded, w.Data))
+			} else if partErr != nil || !bytes.Equal(partial, w.Pre) {
+				fail(SigPreFilt, "%v: undoing the %d filters passed to OpenStream does not give the bytes handed to Write (err=%v; chain as read back %s)", q.Ref, w.NArgs, partErr, ChainObs(stm.Dict))
+			} else if !Eq(w.Obj, Norm(stripStreamKeys(stm.Dict))) {
+				fail("roundtrip-stream-dict", "%v: dictionary reads %s, written %s", q.Ref, WireString(Norm(stripStreamKeys(stm.Dict)), false), WireString(w.Obj, false))
 			}
 		case w.IsStream:
 			if !isStream {
@@ -334,7 +400,11 @@ func QueryString(qs []Query) string {
 	var sb strings.Builder
 	fmt.Fprintf(&sb, "Q %d", len(qs))
 	for _, q := range qs {
-		fmt.Fprintf(&sb, " %d %d %c", q.Ref.Number(), q.Ref.Generation(), q.Mode)
+		if q.Mode == 'c' {
+			fmt.Fprintf(&sb, " %d %d c%d", q.Ref.Number(), q.Ref.Generation(), q.K)
+		} else {
+			fmt.Fprintf(&sb, " %d %d %c", q.Ref.Number(), q.Ref.Generation(), q.Mode)
+		}
 	}
 	return sb.String()
 }
